@@ -79,7 +79,7 @@ class FixedOffset(tzinfo):
         if sign == 1:
             time_delta: timedelta = timedelta(minutes=minutes)
         else:
-            time_delta: timedelta = timedelta(days=-1, minutes=minutes)
+            time_delta: timedelta = timedelta(minutes=-minutes)
 
         return cls(time_delta, name)
 
